@@ -1,13 +1,17 @@
 import BppProofs.Lemmas.LapEasy
+import BppProofs.Lemmas.LapFullMain
 /-!
-# C04 — the linear-assignment solver (`MatrixTools::lap`, `MatrixTools.h:1263-1541`)
+# C04 — the linear-assignment solver (`MatrixTools::lap`, `MatrixTools.h:1267-1552`)
 
-The model of `lap` is relational (`BppModel/Lap.lean`): an answer `(rowSol, colSol, u, v)` is
-accepted iff `rowSol` is a permutation with inverse `colSol` (`permB`) and the dual variables
-certify it (`certB`, or `certTolB` with a slack for costs whose reduced costs are not exactly
-representable).  The driver evaluates exactly these predicates, in `Rat`, on the implementation's
-answer for every generated cost matrix.  The theorems below show, for every size `n` and every
-real cost matrix, that a certified answer is optimal among **all** `n!` permutations.
+The whole Jonker–Volgenant routine is transcribed (`BppModel/LapFull.lean`: `Lap.lapFull`, compared
+bit-for-bit with the implementation on every generated cost matrix).  An answer
+`(rowSol, colSol, u, v, cost)` is what the property demands iff `rowSol` is a permutation with inverse
+`colSol` (`permB`), the dual variables certify it (`certB`) and `cost` is the cost of the assignment
+(`Lap.Certified`); the driver evaluates exactly these predicates, in `Rat`, on the implementation's
+answer.  Below: a certified answer is optimal among **all** `n!` permutations (`lap_certificate`, any
+`n`), and the routine returns a certified answer for every real cost matrix with `n < 2^15`, never
+leaves its vectors, and needs at most `n² + n` passes through any of its open loops
+(`lap_total`, `lap_full_*`).
 -/
 namespace Bpp.C04
 open Bpp Bpp.Mx Bpp.Mx.Lap
@@ -89,18 +93,96 @@ theorem lap_certified_cost_unique (n : Nat) (c : Nat → Nat → ℝ) (σ ρ σ'
   · rw [e σ' π' hπ']; exact lap_certificate n c σ ρ u v hp hc π'
   · rw [e σ π hπ]; exact lap_certificate n c σ' ρ' u' v' hp' hc' π
 
-/-! ## the routine itself
+/-! ## the routine itself -/
 
-Full statement (`lap_total`, **not proved**): for every `n` and every real `n × n` cost matrix the
-Jonker–Volgenant routine terminates and its answer `(rowSol, colSol, u, v, cost)` satisfies
-`permB n rowSol colSol ∧ certB n c rowSol u v ∧ cost = Σ c i (rowSol i)`.
+/-- **total correctness** (`lap_total`).  For every `n < 2^15` (the counters `matches` are `short`)
+and every real `n × n` cost matrix, whatever the output vectors hold on entry, the routine — every open
+loop (`while (k < previousNumFree)`, `do … while (!unassignedFound)`, `do … while (i != freeRow)`)
+allowed `n² + n + 1` passes — returns; `rowSol` and `colSol` are non-negative, `rowSol` is a
+permutation of `0..n-1` with inverse `colSol`, `u i + v j ≤ c i j` everywhere with equality on the
+assignment, and the returned cost is the cost of the assignment. -/
+theorem lap_total (n : Nat) (hn : n < 32768) (c : Nat → Nat → ℝ) (rowSol0 colSol0 : Nat → Int) (u0 v0 : Nat → ℝ) :
+    ∃ a, lapFull (n * n + n + 1) n c rowSol0 colSol0 u0 v0 = .ok a ∧
+      (∀ i, i < n → 0 ≤ a.rowSol i ∧ 0 ≤ a.colSol i) ∧
+      permB n (fun i => (a.rowSol i).toNat) (fun j => (a.colSol j).toNat) = true ∧
+      certB n c (fun i => (a.rowSol i).toNat) a.u a.v = true ∧
+      a.cost = cost n c (fun i => (a.rowSol i).toNat) :=
+  (lapFullG_good hn c (arrCut n) True (n * n + n + 1) (fun _ => ⟨rfl, Nat.le_refl _⟩) rowSol0 colSol0 u0 v0).total trivial
 
-Proved (`lap_partial`): the statement for the part of the routine that is transcribed
-(`Lap.lapEasy`: column reduction, reduction transfer, final loop), i.e. for every cost matrix whose
-column minima lie in pairwise different rows, so that the augmenting row reduction and the
-augmentation find no free row and do nothing.  On the remaining inputs the clause is checked on the
-implementation's answers (certificate evaluated in `Rat`, brute force over all permutations), not
-proved: the loop invariants of the shortest-augmenting-path phases are missing. -/
+/-- **partial correctness**: whenever the routine returns (any fuel), its answer is certified -/
+theorem lap_full_certified (n : Nat) (hn : n < 32768) (c : Nat → Nat → ℝ) (fuel : Nat) (rowSol0 colSol0 : Nat → Int)
+    (u0 v0 : Nat → ℝ) (a : Full ℝ) (h : lapFull fuel n c rowSol0 colSol0 u0 v0 = .ok a) : Certified n c a :=
+  (lapFullG_good hn c (arrCut n) False fuel (fun hb => hb.elim) rowSol0 colSol0 u0 v0).of_ok h
+
+/-- … hence an assignment of minimal total cost among all `n!` permutations -/
+theorem lap_full_optimal (n : Nat) (hn : n < 32768) (c : Nat → Nat → ℝ) (fuel : Nat) (rowSol0 colSol0 : Nat → Int)
+    (u0 v0 : Nat → ℝ) (a : Full ℝ) (h : lapFull fuel n c rowSol0 colSol0 u0 v0 = .ok a) (τ : Equiv.Perm (Fin n)) :
+    a.cost ≤ ∑ i : Fin n, c i.val (τ i).val := by
+  obtain ⟨_, hp, hc, hcost⟩ := lap_full_certified n hn c fuel rowSol0 colSol0 u0 v0 a h
+  rw [hcost]
+  exact lap_certificate n c _ _ a.u a.v hp hc τ
+
+/-- **no undefined behaviour**: no vector or matrix access of the routine is out of range, no variable
+is read before it is assigned, and the sentinel `+inf` never enters the arithmetic — for any fuel the
+only outcome other than a normal return is fuel exhaustion -/
+theorem lap_full_no_ub (n : Nat) (hn : n < 32768) (c : Nat → Nat → ℝ) (fuel : Nat) (rowSol0 colSol0 : Nat → Int)
+    (u0 v0 : Nat → ℝ) :
+    lapFull fuel n c rowSol0 colSol0 u0 v0 ≠ .error .ub ∧ lapFull fuel n c rowSol0 colSol0 u0 v0 ≠ .error .inf :=
+  (lapFullG_good hn c (arrCut n) False fuel (fun hb => hb.elim) rowSol0 colSol0 u0 v0).ne_ub
+
+/-- **termination**: `n² + n + 1` passes through each open loop suffice (the augmenting row reduction
+scans at most `prev · n + prev` rows per sweep since the repair of `findings/C04.json`; each search
+scans at most `n` columns; each path has at most `n` columns) -/
+theorem lap_full_fuel_suffices (n : Nat) (hn : n < 32768) (c : Nat → Nat → ℝ) (fuel : Nat) (hf : n * n + n + 1 ≤ fuel)
+    (rowSol0 colSol0 : Nat → Int) (u0 v0 : Nat → ℝ) :
+    lapFull fuel n c rowSol0 colSol0 u0 v0 ≠ .error .fuel := by
+  obtain ⟨a, ha, _⟩ := (lapFullG_good hn c (arrCut n) True fuel (fun _ => ⟨rfl, hf⟩) rowSol0 colSol0 u0 v0).total trivial
+  have ha' : lapFull fuel n c rowSol0 colSol0 u0 v0 = .ok a := ha
+  rw [ha']; intro h; cases h
+
+/-- the text before the repair (`if (uMin < uSubMin)` without the bound on the chain of
+re-assignments) is partially correct and free of undefined behaviour as well … -/
+theorem lap_orig_certified (n : Nat) (hn : n < 32768) (c : Nat → Nat → ℝ) (fuel : Nat) (rowSol0 colSol0 : Nat → Int)
+    (u0 v0 : Nat → ℝ) :
+    (∀ a, lapFullOrig fuel n c rowSol0 colSol0 u0 v0 = .ok a → Certified n c a) ∧
+    lapFullOrig fuel n c rowSol0 colSol0 u0 v0 ≠ .error .ub ∧ lapFullOrig fuel n c rowSol0 colSol0 u0 v0 ≠ .error .inf :=
+  have h := lapFullG_good hn c arrCutOrig False fuel (fun hb => hb.elim) rowSol0 colSol0 u0 v0
+  ⟨fun _ ha => h.of_ok ha, h.ne_ub⟩
+
+/-- the `4 × 4` cost matrix of the witness: the integers `0..2` with three entries raised by `q`, `2q`, `3q` -/
+def priceWar (q : Rat) : Nat → Nat → Rat := fun i j =>
+  match i, j with
+  | 0, 0 => 1 + q | 0, _ => 2
+  | 1, 0 => 2 | 1, 1 => 1 | 1, 2 => 0 | 1, _ => 2
+  | 2, 0 => 1 | 2, 1 => 2 + 2 * q | 2, _ => 2
+  | 3, 0 => 1 + 3 * q | _, _ => 2
+
+set_option maxHeartbeats 1000000 in
+/-- … but the number of passes through `while (k < previousNumFree)` it needs is not bounded in `n`
+(witness, exact arithmetic): on the `4 × 4` matrix `priceWar q` two rows take column 0 from each
+other, lowering its price by a few `q` each time; for `q = 2⁻¹⁰` 100 passes do not suffice, for
+`q = 2⁻²⁰` 2000 do not — the repaired text needs at most 20 (`lap_full_fuel_suffices`) and returns
+(`Lap.returns`: the outcome is `.ok _`) within 21 on both.  With `q = 2⁻⁵²` (doubles `1 + ulp`) the implementation did not return
+(`corpus/C04/lap_price_war.txt`). -/
+theorem lap_orig_unbounded_chain :
+    lapFullOrig 100 4 (priceWar (1 / 1024)) (fun _ => -7) (fun _ => -7) (fun _ => 99) (fun _ => 99) = .error .fuel ∧
+    lapFullOrig 2000 4 (priceWar (1 / 1048576)) (fun _ => -7) (fun _ => -7) (fun _ => 99) (fun _ => 99) = .error .fuel ∧
+    returns (lapFull 21 4 (priceWar (1 / 1024)) (fun _ => -7) (fun _ => -7) (fun _ => 99) (fun _ => 99)) = true ∧
+    returns (lapFull 21 4 (priceWar (1 / 1048576)) (fun _ => -7) (fun _ => -7) (fun _ => 99) (fun _ => 99)) = true := by
+  refine ⟨?_, ?_, ?_, ?_⟩
+  · rw [← outOfFuel_iff]; decide +kernel
+  · rw [← outOfFuel_iff]; decide +kernel
+  · decide +kernel
+  · decide +kernel
+
+/-- non-vacuity of `lap_full_certified`: on the `3 × 3` matrix `[[1,1,1],[1,1,1],[2,0,3]]` (two free
+rows after the column reduction; evaluated in `Rat`) the routine returns `rowSol = (2, 0, 1)` -/
+example : (match lapFull (α := Rat) 13 3 (fun i j => if i = 2 then (if j = 0 then 2 else if j = 1 then 0 else 3) else 1)
+      (fun _ => -7) (fun _ => -7) (fun _ => 99) (fun _ => 99) with
+    | .ok a => decide (a.rowSol 0 = 2 ∧ a.rowSol 1 = 0 ∧ a.rowSol 2 = 1 ∧ a.cost = 2)
+    | .error _ => false) = true := by decide +kernel
+
+/-! ### the part of the routine that needs no augmentation (kept from the first version of this check) -/
 
 /-- on inputs without free rows after the column reduction the routine returns a permutation with
 its inverse, dual variables certifying it, and the cost of that assignment -/
